@@ -448,17 +448,12 @@ def _yield_children(rec, rr):
                 if child.rock_ridge.child_link_record_exists() and \
                    child.rock_ridge.cl_to_moved_dr is not None and \
                    child.rock_ridge.cl_to_moved_dr.parent is not None:
-                    # This is a relocated entry.  We want to find the entry this
-                    # was relocated to; we do that by following the child_link,
-                    # then going up to the parent and finding the entry that
-                    # links to the same one as this one.
-                    cl_parent = child.rock_ridge.cl_to_moved_dr.parent
-                    for cl_child in cl_parent.children:
-                        if cl_child.rock_ridge is not None and cl_child.rock_ridge.name() == child.rock_ridge.name():
-                            child = cl_child
-                            break
-                    # If we didn't find the relocated entry in the parent of the
-                    # moved entry, weird; just yield the one we would have anyway.
+                    # This is a relocated entry.  The child link is the entry
+                    # this was relocated to, so yield that one.  (Looking in
+                    # the parent of the moved entry for an entry with the same
+                    # Rock Ridge name is not enough; several relocated
+                    # directories may have the same Rock Ridge name.)
+                    child = child.rock_ridge.cl_to_moved_dr
 
         yield child
 
